@@ -33,6 +33,22 @@ pub fn run(kind: &str, seed: u64, args: &BTreeMap<String, String>, out: &mut dyn
                         let rd = gj::render(&mut r, &ro, &v);
                         (v, rd)
                     }
+                    "dups" => {
+                        let o = gj::TreeOpts {
+                            max_depth: *r.pick(&[2usize, 3, 5]),
+                            max_width: *r.pick(&[3usize, 6, 12]),
+                            budget: *r.pick(&[20usize, 60]),
+                            dup_keys: true,
+                            str_class: r.below(4) as u8,
+                            max_str: 12,
+                            num_class: r.below(3) as u8,
+                            simple_keys: r.chance(1, 2),
+                        };
+                        let v = gj::Val::Obj(vec![("k".into(), gj::gen_tree(&mut r, &o)), ("k".into(), gj::gen_tree(&mut r, &o))]);
+                        let ro = gj::RenderOpts { ws: r.below(3) as u8, esc: r.below(3) as u8, align_to: None };
+                        let rd = gj::render(&mut r, &ro, &v);
+                        (v, rd)
+                    }
                     "deep" => {
                         let d: usize = args.get("depth").and_then(|s| s.parse().ok()).unwrap_or(200);
                         let depth = if i % 2 == 0 { d } else { r.range(d / 2, d) };
